@@ -882,6 +882,19 @@ def mini_exec(fn: ast.FunctionDef, args: Dict[str, object], budget: int = 2000, 
         if isinstance(e, ast.Call) and isinstance(e.func, ast.Name) and e.func.id in env and callable(env[e.func.id]) and not isinstance(env[e.func.id], (SampleObj, ClassTok)):
             # a function defined inside the interpreted function (or a lambda bound to a name)
             return env[e.func.id](*[ev(x) for x in e.args])
+        if isinstance(e, ast.BinOp) and isinstance(e.op, (ast.Mult, ast.FloorDiv, ast.Div, ast.Pow, ast.BitOr, ast.BitAnd)):
+            l_, r_ = ev(e.left), ev(e.right)
+            if any(isinstance(v_, (SampleObj, ClassTok)) or callable(v_) for v_ in (l_, r_)):
+                raise _PathEval.Unknown("arithmetic on a sample object")
+            import operator as _op
+            f2_ = {ast.Mult: _op.mul, ast.FloorDiv: _op.floordiv, ast.Div: _op.truediv, ast.Pow: _op.pow, ast.BitOr: _op.or_, ast.BitAnd: _op.and_}[type(e.op)]
+            try:
+                r2_ = f2_(l_, r_)
+            except (TypeError, ZeroDivisionError, OverflowError):
+                raise _PathEval.Unknown("arithmetic on these samples")
+            if isinstance(r2_, (str, list)) and len(r2_) > 100000:
+                raise _PathEval.Unknown("value too large")
+            return r2_
         if isinstance(e, ast.BinOp) and isinstance(e.op, ast.Mod):
             l_, r_ = ev(e.left), ev(e.right)
             if isinstance(l_, str):
@@ -893,6 +906,17 @@ def mini_exec(fn: ast.FunctionDef, args: Dict[str, object], budget: int = 2000, 
                 return l_ % r_
             except (TypeError, ZeroDivisionError):
                 raise _PathEval.Unknown("modulo on these samples")
+        if isinstance(e, ast.Call) and unparse(e.func) in ("textwrap.indent", "textwrap.dedent", "indent", "dedent") and \
+                (isinstance(e.func, ast.Attribute) or e.func.id not in env):
+            import textwrap as _tw
+            a_ = [ev(x) for x in e.args]
+            kw_ = {k.arg: ev(k.value) for k in e.keywords if k.arg}
+            if not a_ or not isinstance(a_[0], str) or any(callable(v_) for v_ in kw_.values()):
+                raise _PathEval.Unknown("textwrap on something that is not text")
+            try:
+                return getattr(_tw, unparse(e.func).split(".")[-1])(*a_, **kw_)
+            except TypeError as ex:
+                raise _PathEval.Unknown(f"textwrap: {ex}")
         if isinstance(e, ast.Call) and unparse(e.func) in ("itertools.product", "product"):
             import itertools as _it
             vals_ = []
@@ -943,7 +967,7 @@ def mini_exec(fn: ast.FunctionDef, args: Dict[str, object], budget: int = 2000, 
                 raise _PathEval.Unknown("isinstance against a computed class")
             if isinstance(obj, SampleObj):
                 return bool(({obj.get("__kind__")} | set(obj.get("__bases__", ()))) & names)
-            py = {"str": str, "list": list, "tuple": tuple, "dict": dict, "int": int, "bool": bool, "set": set}
+            py = {"str": str, "list": list, "tuple": tuple, "dict": dict, "int": int, "bool": bool, "set": set, "Iterable": (list, tuple, dict, set, str)}
             return any(isinstance(obj, py[n_]) for n_ in names if n_ in py)
         if isinstance(e, ast.Call) and isinstance(e.func, ast.Attribute) and e.func.attr in _VALUE_METHODS["__all__"] and not (methods and e.func.attr in methods):
             recv = ev(e.func.value)
@@ -1451,6 +1475,19 @@ def rule_create_register(ctx, rep: Report, rid="H1"):
 
 
 def _upcast_followed_by_collector(ctx) -> bool:
+    # read off the text the constructor emitter produces for a virtual sample class, where it can be run: after the inner
+    # `if nargin == 2 ... else <up-cast> end` the collector registration follows at the same depth (in every case)
+    from .rules_ids import run_constructor_emitter
+    got = run_constructor_emitter(ctx, True, True)
+    if got is not None:
+        lines = [l for l in got[0].splitlines() if l.strip()]
+        up = [i for i, l in enumerate(lines) if _re.search(r"my_ptr\s*=\s*\w+\(\d+,\s*varargin\{2\}\);", l)]
+        reg = [i for i, l in enumerate(lines) if _re.search(r"\w+\(\d+,\s*my_ptr\);", l)]
+        if len(up) == 1 and len(reg) == 1 and reg[0] > up[0]:
+            ind = lambda l: len(l) - len(l.lstrip())          # noqa: E731
+            between = lines[up[0] + 1:reg[0]]
+            return len(between) == 1 and between[0].strip() == "end" and ind(between[0]) == ind(lines[reg[0]]) and ind(lines[reg[0]]) < ind(lines[up[0]])
+        return False
     ci, prog = mw(ctx)
     fn = prog.method("MatlabWrapper", "wrap_class_constructors")
     fo = Folder(prog, ci.mod, fn, ci)
